@@ -87,4 +87,25 @@ theorem gmd_sound (m n : Nat) (U : Mat ℝ m m) (V : Mat ℝ n n) (S : Fin (min 
       rw [← hij]
       exact f3 i.val hi
 
+/-- example input: singular values `(4, 1)` -/
+def exS : Fin (min 2 2) → ℝ := fun i => if i.val = 0 then 4 else 1
+
+theorem ex_hyps : 0 < min 2 2 ∧ matMul (cT (eye : Mat ℝ 2 2)) eye = eye ∧
+    matMul (cT (eye : Mat ℝ 2 2)) eye = eye ∧ (∀ i, 0 < exS i) ∧
+    (∀ i j, i ≤ j → exS j ≤ exS i) ∧ (0 : ℝ) < 2 ∧ (2 : ℝ) ^ (min 2 2) = ∏ i, exS i := by
+  have he : matMul (cT (eye : Mat ℝ 2 2)) eye = eye := by
+    to_matrix
+    simp
+  refine ⟨by decide, he, he, ?_, ?_, by norm_num, ?_⟩
+  · intro i; unfold exS; split <;> norm_num
+  · intro i j hij
+    have hi := i.isLt
+    have hj := j.isLt
+    have hij' : i.val ≤ j.val := hij
+    unfold exS
+    split <;> split <;> first | (exfalso; omega) | norm_num
+  · show (2 : ℝ) ^ 2 = ∏ i : Fin 2, exS i
+    rw [Fin.prod_univ_two]
+    simp [exS]; norm_num
+
 end PyPhysim.LinAlg.GmdInv
